@@ -48,7 +48,7 @@ func init() {
 		enc := json.NewEncoder(w)
 		programs, dropped, events, panics := 0, 0, 0, 0
 		var droppedIDs []string
-		runOne := func(id string, cfg runCfg, seq []string, dir string) {
+		runOne := func(id string, cfg runCfg, seq []string, dir string, modes ...string) {
 			s, err := newSession(cfg)
 			if err != nil {
 				fmt.Fprintln(os.Stderr, err)
@@ -66,7 +66,11 @@ func init() {
 				}
 			})
 			for i, src := range seq {
-				s.load(fmt.Sprintf("%s-%d", id, i), src)
+				if i < len(modes) && modes[i] == "call" {
+					s.callEntry(fmt.Sprintf("%s-%d", id, i), src)
+				} else {
+					s.load(fmt.Sprintf("%s-%d", id, i), src)
+				}
 			}
 			lisp.SetVerifTracer(s.env.Runtime, nil)
 			if n > *maxEv {
@@ -122,7 +126,7 @@ func init() {
 					}
 				}
 				for ci, c := range cfgs {
-					runOne(fmt.Sprintf("%v/%d", in.ID, ci), c, seq, "")
+					runOne(fmt.Sprintf("%v/%d", in.ID, ci), c, seq, "", in.Modes...)
 				}
 			})
 		}
